@@ -73,6 +73,10 @@ def norm_message(msg):
     msg = _IN_SRC.sub(r'in SRC, \1', msg)
     msg = _READER_SRC.sub('\n  in SRC', msg)
     msg = _POSITION.sub('position N', msg)
+    # text-mode sources hand yatiml '\n' where the document has '\r\n' or '\r'
+    # (Python's universal newlines); a message quoting the line break it found
+    # (PyYAML uses %r) is the same error whichever spelling it quotes
+    msg = msg.replace("'\\r\\n'", "'\\n'").replace("'\\r'", "'\\n'")
     toks = _TOKEN.findall(msg)
     return sorted(toks)
 
